@@ -10,3 +10,7 @@ pub(crate) use crate::verif_common as common;
 #[cfg(verif_c19b)]
 #[path = "/verif/harness/daemon/c19b.rs"]
 mod c19b;
+
+#[cfg(verif_c18b)]
+#[path = "/verif/harness/daemon/c18b.rs"]
+mod c18b;
